@@ -5,6 +5,27 @@ import os
 from . import core, gen, inpkg, schemagen
 
 
+CRAFTED = """
+tree.string x:string = tree.String;
+tree.int v:int kids:(vector tree.int) = tree.Int;
+json.null = json.Value;
+json.double value:double = json.Value;
+json.long value:long = json.Value;
+json.string value:string = json.Value;
+json.float value:float = json.Value;
+b.pair#0badf00d x:int y:int = b.Pair;
+b.one#0badf00e = b.Either;
+b.two#0badf00f p:b.pair = b.Either;
+m.masked n:# ns:# c:n.2?3*[int] d:n.3?ns*[long] e:n.4?(vector string) f:n.5?(tuple int ns) = m.Masked;
+engine.query {X:Type} query:!X = engine.Query;
+engine.queryShortened query:%(VectorTotal int) = engine.Query;
+vectorTotal {t:Type} total_count:int vector:%(Vector t) = VectorTotal t;
+---functions---
+@read tree.get s:tree.string = json.Value;
+@read b.get#0badf010 e:b.Either = b.Pair;
+"""
+
+
 def prepare(ctx, want_canonical, want_tlo, nrandom, label):
     tl2gen = gen.tool(ctx, "tl2gen")
     cdir = os.path.join(ctx.work, "cases_" + label)
@@ -16,6 +37,10 @@ def prepare(ctx, want_canonical, want_tlo, nrandom, label):
         p = os.path.join(ctx.scratch, extra)
         if os.path.exists(p):
             sets.append((os.path.basename(extra).replace(".", "_"), [p]))
+    # crafted: names and declaration shapes that neither the repository schemas nor SchemaGen contain
+    p = os.path.join(cdir, "crafted.tl")
+    open(p, "w").write(schemagen.PRELUDE + CRAFTED)
+    sets.append(("crafted", [p]))
     for i in range(nrandom):
         s = schemagen.generate(ctx.seed, "%s/%d" % (label, i))
         p = os.path.join(cdir, "rnd%d.tl" % i)
